@@ -423,7 +423,10 @@ void end() {
 using namespace dsim;
 
 // ---------------------------------------------------------------- hooks called from the instrumented atomic and from H2
-extern "C" void cds_verif_pre(int k, const void* a) noexcept { dsim::point(k, a); }
+extern "C" void cds_verif_pre(int k, const void* a) noexcept {
+    if (g_active && self && dsim::arena_is_freed(a)) { if (!ST.uaf++) { ST.uaf_step = ST.steps; ST.uaf_addr = a; ST.uaf_thread = self->id; ST.uaf_kind = k; } }
+    dsim::point(k, a);
+}
 extern "C" void cds_verif_post(int k, const void* a, int wrote) noexcept {
     Thr* s = self; if (!g_active || !s) return;
     if (wrote) { progress_by(s); ST.sig_hash = (ST.sig_hash * 1099511628211ULL) ^ (uint64_t)(s->id * 4 + 3); if (k == K_RMW) s->casfail_streak = 0; }
